@@ -56,7 +56,7 @@ func variantsFor(thorough bool) []variant {
 	for f := 0; f < nAFlavours; f++ {
 		vs = append(vs, variant{f})
 	}
-	two := []int{afJSFull, afGoFull, afHalf1}
+	two := []int{afJSFull, afGoFull}
 	three := []int{afJSFull}
 	if thorough {
 		two = []int{afJSFull, afEmpty, afHalf1, afHalf2, afNull, afGoFull, afGoStr, afGoEmpty}
@@ -69,7 +69,10 @@ func variantsFor(thorough bool) []variant {
 		vs = append(vs, variant{f, f, f})
 	}
 	// mixed chains
-	vs = append(vs, variant{afJSFull, afGoFull}, variant{afGoFull, afJSFull}, variant{afHalf1, afHalf2}, variant{afGoStr, afJSFull, afEmpty})
+	vs = append(vs, variant{afJSFull, afGoFull}, variant{afHalf1, afHalf2})
+	if thorough {
+		vs = append(vs, variant{afGoFull, afJSFull}, variant{afGoStr, afJSFull, afEmpty})
+	}
 	return vs
 }
 
@@ -200,7 +203,7 @@ var aKinds = []aKind{
 		aOp{name: "Array.prototype.push.call", full: "Array.prototype.push.call", js: `return AP.push.call(x, 2);`}),
 	// (own keys of a function are materialised lazily and their order depends on the access history - property C04's
 	// subject; they are touched once in a fixed order here so that both runs start from the same state)
-	buildKind("function", `(function () { var t = function (a, b) { "use strict"; SL.push("T(" + R(this) + "," + R(a) + "," + R(b) + "," + (new.target ? "new" : "call") + ")"); if (new.target) this.a = a; else return "ret"; }; Reflect.ownKeys(t); return {t: t}; })()`,
+	buildKind("function", `(function () { var t = function (a, b) { "use strict"; SL.push("T(" + R(this) + "," + R(a) + "," + R(b) + "," + (new.target ? "new" : "call") + ")"); if (new.target) this.a = a; else return "ret"; }; Reflect.getOwnPropertyDescriptor(t, "prototype"); Reflect.ownKeys(t); return {t: t}; })()`,
 		[]string{`"p"`, `"prototype"`, `"name"`, `SYM`}),
 	buildKind("arrow", `(function () { var t = (a, b) => "ret" + R(a); Reflect.ownKeys(t); return {t: t}; })()`, []string{`"p"`, `"length"`}),
 	buildKind("String", `{t: new String("ab")}`, []string{`"0"`, `"2"`, `"length"`, `"p"`}),
@@ -265,9 +268,9 @@ function runPathA(kindI, path, last, variant) {
 }
 var LASTMSG = "";
 // expands one state: for every op the successor key, and the list of (op, variant) pairs whose proxy run differs
-function expandA(kindI, path, variants) {
+function expandA(kindI, path, variants, opLo, opHi) {
   var kind = AKINDS[kindI], keys = [], bad = [];
-  for (var oi = 0; oi < kind.ops.length; oi++) {
+  for (var oi = opLo; oi < opHi; oi++) {
     var d = runPathA(kindI, path, oi, null);
     keys.push(d.key);
     var dj = d.outs.join("\n") + "\n" + d.log + "\n" + d.key;
@@ -396,6 +399,20 @@ type ACase struct {
 	Text    []string `json:"text,omitempty"` // readable path (not used by replay)
 }
 
+// resolve maps the recorded operation names back to indices (the alphabet may have grown since the case was recorded).
+func (c *ACase) resolve() {
+	if c.Kind < 0 || c.Kind >= len(aKinds) || len(c.Text) != len(c.Path) {
+		return
+	}
+	for i, name := range c.Text {
+		for oi, o := range aKinds[c.Kind].ops {
+			if o.full == name {
+				c.Path[i] = oi
+			}
+		}
+	}
+}
+
 type aFail struct{ sig, what string }
 
 type pathResult struct {
@@ -452,7 +469,12 @@ func evalA(e *aEngine, c *ACase) []aFail {
 	}
 	where := fmt.Sprintf("%s target, path %s, proxy chain %s", k.name, strings.Join(describePath(c.Kind, c.Path), " ; "), variant(c.Variant))
 	if p1 != "" || p2 != "" {
-		return []aFail{{"A|go-panic|" + normMsg(firstLine(p1+p2)), "Go panic escaped from the engine: " + where + ": " + p1 + p2}}
+		side := "proxy"
+		if p1 != "" {
+			side = "bare"
+		}
+		last := k.ops[c.Path[len(c.Path)-1]]
+		return []aFail{{fmt.Sprintf("A|%s-go-panic|%s|%s|%s", side, k.name, last.name, normMsg(firstLine(p1+p2))), "Go panic escaped from the engine (" + side + " run): " + where + ": " + p1 + p2}}
 	}
 	for i := range d.outs {
 		if i >= len(p.outs) {
@@ -473,7 +495,13 @@ func evalA(e *aEngine, c *ACase) []aFail {
 			if m == "" || m == "?" {
 				m = "op:" + op.name
 			}
-			sig = fmt.Sprintf("A|%s|%s|proxy-throws|%s[%s]", cls, k.name, kp, m)
+			if strings.Contains(m, "' on proxy") || m == "op:Reflect.defineProperty" || m == "op:Object.defineProperty" {
+				// raised by one of the proxy invariant checks: the message (or, for the message-less defineProperty
+				// checks, the operation) names the check; the target kind does not matter
+				sig = fmt.Sprintf("A|%s|proxy-throws|%s[%s]", cls, kp, m)
+			} else {
+				sig = fmt.Sprintf("A|%s|%s|proxy-throws|%s[%s]", cls, k.name, kp, m)
+			}
 		case kd != kp:
 			sig = fmt.Sprintf("A|%s|%s|%s|bare=%s|proxy=%s", cls, k.name, op.name, kd, kp)
 		default:
@@ -570,11 +598,10 @@ func (s *kindSearch) expandLevel() bool {
 		for i := lo; i < hi; i++ {
 			st := frontier[i]
 			e := s.eng(w)
-			res, panicked := expandState(e, kindI, st.path, s.jsVars)
+			res, panicked := expandState(e, kindI, st.path, s.jsVars, 0, len(k.ops))
 			if panicked != "" {
-				r.Violation("A|go-panic|"+normMsg(firstLine(panicked)), fmt.Sprintf("Go panic while expanding %s state %v: %s", k.name, describePath(kindI, st.path), panicked),
-					&ACase{Part: "A", Kind: kindI, Path: st.path, Variant: s.variants[0]})
-				continue
+				// a Go panic escaped from some operation: expand operation by operation, report and skip the culprits
+				res = s.expandOneByOne(w, st.path)
 			}
 			r.Transitions(int64(len(k.ops)))
 			r.Traces(int64(len(k.ops) * len(s.variants)))
@@ -586,6 +613,9 @@ func (s *kindSearch) expandLevel() bool {
 			}
 			mu.Lock()
 			for oi, key := range res.keys {
+				if key == "" {
+					continue
+				}
 				h := hashKey(key)
 				if _, ok := s.seen[h]; ok {
 					continue
@@ -617,12 +647,43 @@ func (s *kindSearch) expandLevel() bool {
 	return true
 }
 
+// expandOneByOne is the fallback after a Go panic during an expansion: every operation separately (fresh engine after
+// each panic); panicking (operation, variant) pairs are reported and yield no successor.
+func (s *kindSearch) expandOneByOne(w int, path []int) (res expandResult) {
+	k := &aKinds[s.kindI]
+	for oi := range k.ops {
+		one, panicked := expandState(s.eng(w), s.kindI, path, s.jsVars, oi, oi+1)
+		if panicked == "" {
+			res.keys = append(res.keys, one.keys...)
+			res.bad = append(res.bad, one.bad...)
+			continue
+		}
+		res.keys = append(res.keys, "") // no successor through this operation
+		full := append(append([]int{}, path...), oi)
+		c := &ACase{Part: "A", Kind: s.kindI, Path: full, Variant: s.variants[0], Text: describePath(s.kindI, full)}
+		where := "proxy"
+		if _, p := newAEngine().runPathGo(s.kindI, full, nil); p != "" {
+			where = "bare" // the bare target alone crashes: not a proxy matter (typed arrays: property C17 / C04)
+		} else {
+			for _, v := range s.variants {
+				if _, p := newAEngine().runPathGo(s.kindI, full, v); p != "" {
+					c.Variant = v
+					break
+				}
+			}
+		}
+		s.r.Violation(fmt.Sprintf("A|%s-go-panic|%s|%s|%s", where, k.name, k.ops[oi].name, normMsg(firstLine(panicked))),
+			fmt.Sprintf("Go panic escaped from the engine (%s run): %s target, path %s: %s", where, k.name, strings.Join(describePath(s.kindI, full), " ; "), panicked), c)
+	}
+	return
+}
+
 type expandResult struct {
 	keys []string
 	bad  []int
 }
 
-func expandState(e *aEngine, kindI int, path []int, variants [][]int) (res expandResult, panicked string) {
+func expandState(e *aEngine, kindI int, path []int, variants [][]int, opLo, opHi int) (res expandResult, panicked string) {
 	defer func() {
 		if x := recover(); x != nil {
 			panicked = fmt.Sprintf("%v\n%s", x, firstGojaFrames(string(debug.Stack())))
@@ -633,7 +694,7 @@ func expandState(e *aEngine, kindI int, path []int, variants [][]int) (res expan
 	if path == nil {
 		path = []int{}
 	}
-	v, err := e.expand(goja.Undefined(), rt.ToValue(kindI), rt.ToValue(path), rt.ToValue(variants))
+	v, err := e.expand(goja.Undefined(), rt.ToValue(kindI), rt.ToValue(path), rt.ToValue(variants), rt.ToValue(opLo), rt.ToValue(opHi))
 	if err != nil {
 		panic("expandA: " + err.Error())
 	}
